@@ -27,7 +27,7 @@ pub const ASSUMPTIONS: &[&str] = &[
     "yield points: every intercepted libc call (getcwd, statx, open, read, close, ...) and the 24 cfg-guarded hook sites in /repo (build entry, between passes, every parsed line, every pass-1/pass-2 item, macro expansion, .device, every symbol-table accessor - i.e. inside expression evaluation); in the function-entry build of the harness (nightly, -Zinstrument-mcount on the code under test only) additionally about every k-th function entry of avra_lib and its helper crates, k seeded per thread",
     "a token holder that blocks on a foreign lock for 2 s of wall time loses the token to the lowest-numbered parked thread; wall time decides when this is noticed, never who runs",
     "the build hit by an injected fault is exempt (engine inctree judges it); every other build of the episode is judged",
-    "corpus entries that panic or crash in isolation are excluded and counted (a C16 matter)",
+    "corpus entries on which today's code panics (about 1 in 25: a register number out of range, a number above 64 bits, a missing operand) stay in: the panic payload is their result, compared like an error text; entries whose reference process crashes or hangs are excluded and counted",
 ];
 
 // ---------------------------------------------------------------------------------------------
@@ -518,9 +518,9 @@ fn compute_refs(c: &mut Corpus, root: &str, stats: &mut Stats, emit: &mut dyn Fn
                     }
                 };
                 if matches!(a.outcome, Outcome::Panic(_)) {
-                    stats.exclude("corpus entry panics in isolation (a C16 matter)");
-                    c.entries.remove(&id);
-                    continue;
+                    // that it panics is a C16 matter; that it does the same in every history
+                    // and next to every other build is this property's
+                    stats.count("corpus_entries_that_panic_alone", 1);
                 }
                 if a.outcome != b.outcome {
                     // the hash-order / time clause of the property, before any scheduling
